@@ -74,6 +74,15 @@ CHECKS["C06"] = dict(
          "Crash exits are inconclusive here (C08 owns them).",
     ref="DESIGN.md §6 P-C06")
 
+CHECKS["C05"] = dict(
+    technique="runtime monitoring: repeated-execution differential monitor (fresh processes, rotated environments, in-process repetition)",
+    text="18 command/output modes (validate structured json/yaml/sarif/junit, plain json/yaml, print-json, console variants, parse-tree, test in "
+         "4 renderings, rulegen) are each run 5 (quick) / 8 (thorough) times as fresh processes of the shipped binary - fresh hash seeds - under "
+         "rotated TZ/LANG/HOME/COLUMNS/NO_COLOR/RUST_BACKTRACE/cwd/pipe-vs-file, and payload modes 5 times inside one process; exit codes must be "
+         "equal, structured output byte-identical (elapsed-time fields masked), console output equal as a multiset of lines.",
+    note="A random ordering of k items escapes N runs with probability (1/k!)^(N-1); inputs have >=3 rules/files per collection. Environment rotation is a sample, not all environments.",
+    ref="DESIGN.md §6 P-C05")
+
 PENDING = {}
 
 
